@@ -38,8 +38,10 @@ BAD_REQUEST, BAD_TYPE = 1, 1
 # still running after STEP_LIMIT_S seconds of wall time is an endless loop in
 # the code under test and becomes the observation DIVERGED (which no spec
 # action produces).  The timer keeps firing so the exception also gets past
-# POX's bare `except:` clauses.
-STEP_LIMIT_S = 30.0
+# POX's bare `except:` clauses.  (A step normally needs < 1 ms of CPU, so the
+# limit is thousands of times the need even on a heavily loaded machine.)
+STEP_LIMIT_S = 5.0
+STEP_LIMIT_AFTER_DIVERGENCE_S = 0.5   # once this process has seen one
 
 
 class Diverged(BaseException):
@@ -47,10 +49,12 @@ class Diverged(BaseException):
 
 
 _fired = [False]
+_ever = [False]
 
 
 def _on_alarm(signum, frame):
   _fired[0] = True
+  _ever[0] = True
   raise Diverged()
 
 
@@ -159,7 +163,8 @@ class Adapter(object):
       return self._step(a, args)
     _fired[0] = False
     try:
-      signal.setitimer(signal.ITIMER_REAL, STEP_LIMIT_S, 0.02)
+      signal.setitimer(signal.ITIMER_REAL,
+                       STEP_LIMIT_AFTER_DIVERGENCE_S if _ever[0] else STEP_LIMIT_S, 0.02)
       try:
         obs = self._step(a, args)
       finally:
